@@ -112,7 +112,7 @@ func mtqueriesMain(args []string) int {
 	fs.Parse(args)
 	rep := newReport("mtqueries")
 	tree := mimetype.VerifTree()
-	var n, dropped, negatives int64
+	var n, dropped, negatives, late int64
 	ops := map[string]int{}
 	err := tlcVectorLines(*in, func(b []byte) {
 		var q mtQuery
@@ -148,6 +148,23 @@ func mtqueriesMain(args []string) int {
 			if mimetype.EqualsAny(left, "no/match", right+"x") && !strings.Contains(right, ";") {
 				rep.violate(Violation{Property: "C15", Kind: "equalsany-prefix", Text: fmt.Sprintf("EqualsAny(%q, %q)", left, right+"x"), Detail: "true for a different type", Key: fmt.Sprintf("C15|eqp|%q", left)})
 			}
+		case "late":
+			late++
+			name := fmt.Sprintf("%s-%d-%v", q.Name, q.Node, q.Exp)
+			if q.Exp && mimetype.Lookup(name) != nil {
+				fmt.Fprintln(os.Stderr, "late name already registered:", name)
+				os.Exit(2)
+			}
+			det := func([]byte, uint32) bool { return false }
+			if strings.Contains(q.Name, "alias") {
+				tree[q.Node-1].M.Extend(det, name+"-primary", ".late", name)
+			} else {
+				tree[q.Node-1].M.Extend(det, name, ".late")
+			}
+			if got := mimetype.Lookup(name); got == nil || !got.Is(name) {
+				rep.violate(Violation{Property: "C15", Kind: "lookup-after-extend", Text: fmt.Sprintf("Lookup(%q) after Extend under %s (looked up before: %v)", name, tree[q.Node-1].M.String(), q.Exp),
+					Detail: fmt.Sprintf("got %v", got), Key: "C15|late|" + name})
+			}
 		case "lookup":
 			got := mimetype.Lookup(q.Name)
 			want := tree[q.Node-1].M
@@ -174,6 +191,8 @@ func mtqueriesMain(args []string) int {
 	}
 	rep.Evaluations = n
 	rep.Nontrivial = negatives + int64(ops["eq"])
+	mimetype.VerifResetTree()
+	rep.Extra["late_registrations"] = late
 	rep.Extra["queries"] = n
 	rep.Extra["by_op"] = ops
 	rep.Extra["negative_is_queries"] = negatives
